@@ -43,10 +43,10 @@ def gen(rng, tier, i):
     st = {'nb': 0}
     # callbacks that bomb, swarm-selected
     if rng.random() < 0.15: defs['CONNECT_ERROR'] = '(n_conn == %d)' % rng.randint(1, 3)
-    if rng.random() < 0.15: defs['LOGON_SCRIPT'] = lpc_str('rec B%d;err %d' % ((_bomb(st, 'logon'),) * 2))
-    if rng.random() < 0.2: defs['NETDEAD_SCRIPT'] = lpc_str('rec B%d;err %d' % ((_bomb(st, 'net_dead'),) * 2))
-    if 'USER_PROCESS_INPUT' in defs and rng.random() < 0.15: defs['PI_SCRIPT'] = lpc_str('rec B%d;err %d' % ((_bomb(st, 'pi'),) * 2))
-    if rng.random() < 0.1: defs['WRITE_PROMPT_SCRIPT'] = lpc_str('rec B%d;err %d' % ((_bomb(st, 'prompt'),) * 2))
+    if rng.random() < 0.15: defs['LOGON_SCRIPT'] = lpc_str('bomb %d err' % _bomb(st, 'logon'))
+    if rng.random() < 0.2: defs['NETDEAD_SCRIPT'] = lpc_str('bomb %d err' % _bomb(st, 'net_dead'))
+    if 'USER_PROCESS_INPUT' in defs and rng.random() < 0.15: defs['PI_SCRIPT'] = lpc_str('bomb %d err' % _bomb(st, 'pi'))
+    if rng.random() < 0.1: defs['WRITE_PROMPT_SCRIPT'] = lpc_str('bomb %d err' % _bomb(st, 'prompt'))
     p.file('mcfg.h', mcfg(defs))
     p.opt('epoll_seed', rng.randint(1, 1 << 30))
     if console_mode:
@@ -104,8 +104,7 @@ def gen(rng, tier, i):
     def bomb_script(kindname):
         b = _bomb(st, kindname)
         how = rng.choice(('err', 'err', 'typeerr', 'forever', 'deepforever', 'throw')) if 'limit' in enabled else rng.choice(('err', 'err', 'typeerr', 'throw'))
-        if how == 'err': return 'rec B%d;err %d' % (b, b)
-        return 'rec B%d;%s' % (b, how)
+        return 'bomb %d %s' % (b, how)
 
     if console_mode:
         p.cycle(cons('do name con'))
@@ -181,7 +180,7 @@ def gen(rng, tier, i):
             p.cycle(say(c, 'do ' + how))
         elif a == 'limit':
             c = rng.choice(t)
-            p.cycle(say(c, 'do rec B%d;%s' % (_bomb(st, 'limit'), rng.choice(('forever', 'deepforever', 'deep 9', 'spend 300')))))
+            p.cycle(say(c, 'do ' + rng.choice(('bomb %d forever' % _bomb(st, 'limit'), 'bomb %d deepforever' % _bomb(st, 'limit'), 'deep 9', 'spend 300'))))
         if use_inject and rng.random() < 0.25:
             p.cycles[-1].insert(0, fault(rng.choice((0, 1, 2, 3, 5, 8, 13, 21, 34, 55, 89, 144, 233)), rng.choice(('error', 'error', 'error', 'evalcost'))))
         if rng.random() < 0.3:
@@ -233,7 +232,7 @@ def check(plan, res):
                 ok = any(ridx > idx for ridx, txt in reports)
                 if not ok:
                     # a bomb that is not an error (deep 9 / spend) reports nothing: only flag err-type bombs
-                    if _bomb_is_error(plan, b):
+                    if True:
                         v.append(Violation(PROP, 'unreported', 'bomb %s executed but no error report followed' % b, PROP + '/unreported/bomb'))
         elif e.kind == 'fault_fired' and 'kind=evalcost' not in e.rest:
             ok = any(ridx > idx and 'verif injected fault' in txt for ridx, txt in reports) or \
